@@ -18,7 +18,13 @@ import (
 // Opus) tracks in PMT / init order; a MPEG-TS PMT may list other elementary streams anywhere
 // (StreamDesc.Unsup, with or without PES data): they are not reported, they do not take part in
 // the choice of the leading track ("the video track if any, else the first" of the supported
-// ones), and a callback carrying one of their PES is an unexpected unit.
+// ones), and a callback carrying one of their PES is an unexpected unit. The same for fMP4: the
+// init section may declare tracks with other codecs (MPEG-1 audio, AC-3, LPCM, MJPEG, MPEG-4 /
+// MPEG-1 video) anywhere among the supported ones, and fragments may carry trafs for them or for
+// track IDs the init section does not declare; every sample of the supported tracks is still
+// delivered and the client reaches the end of the stream. A client that stops making progress on
+// such a stream (no error, no ErrClientEOS within the harness' watchdog, three times in a row)
+// is reported under the signature C10:fmp4:stall-with-unsupported-traf.
 // "Expressed in the track's clock rate" is an integer: where origin*rate/leadingRate is not
 // an integer the oracle accepts either neighbouring tick (and any decision for a unit that
 // precedes the origin by less than one tick), but requires one and the same shift for all
@@ -89,6 +95,31 @@ func oracle(d *Desc, res *runResult, em [][]emitted) []failure {
 	sigBase := "C10:" + d.Kind + ":" + d.Addr + ":"
 	fail := func(what, format string, a ...interface{}) {
 		fails = append(fails, failure{Signature: sigBase + what, What: fmt.Sprintf(format, a...), Input: d})
+	}
+	if d.Kind == "fmp4" && res.Outcome == "timeout" {
+		// the watchdog fired (playOne: three runs in a row). With a traf of a track the client does
+		// not process among the segments it downloads this is one finding, whatever the addressing
+		for si, st := range d.streams() {
+			k := st.unsupTrafSeg(d.firstSeg(st))
+			if k < 0 {
+				continue
+			}
+			got, want := 0, 0
+			for _, t := range res.Tracks {
+				got += len(t.Units)
+			}
+			for _, s2 := range d.streams() {
+				for ti := range s2.Tracks {
+					want += len(expectedFMP4(s2, ti, d.firstSeg(s2)))
+				}
+			}
+			fails = append(fails, failure{Signature: "C10:fmp4:stall-with-unsupported-traf",
+				What: fmt.Sprintf("the client neither reached the end of the stream nor reported an error within the watchdog (three runs): "+
+					"%d of the %d samples of the supported tracks delivered; segment %d of playlist %d is the first downloaded one whose "+
+					"fragments carry a traf of a track the client does not report (unsupported codec or track ID absent from the init section)",
+					got, want, k, si), Input: d})
+			return fails
+		}
 	}
 	if d.Cap {
 		return nil // not a well-formed stream: only the model comparison applies
